@@ -342,7 +342,7 @@ class G:
             return {"h": "sector"}
         self.n_op += 1
         name = self.pick(["ProcessSpecial", "message_Menu", "message_SwitchMenu", f"op_{self.n_op}", "main_EnterAdventure"])
-        args = [{"t": "int", "v": 300000 + self.n_op}] + [self.integer_like() for _ in range(self.i(0, 2))]
+        args = [{"t": "int", "v": 300000 + self.n_op}] + [self.string() if self.b(1, 4) else self.integer_like() for _ in range(self.i(0, 2))]
         return {"h": "op", "op": {"k": "op", "name": name, "args": args, "ctx": None}}
 
     def case_head(self):
